@@ -3,6 +3,10 @@ C04, dense class: `tensor.__setitem__` / `tensor.__getitem__` refine the mutable
 specification for subscript arrays, linear keys and integer/slice regions.
 -/
 import PyttbModel.Lemmas.MutArray
+set_option linter.unusedSimpArgs false
+set_option linter.unusedVariables false
+set_option linter.unusedSectionVars false
+
 namespace Pyttb
 
 variable {α : Type}
